@@ -37,6 +37,7 @@ OUTCOMES = {
     'n_event_report': ['ok', 'EHE'],
     'get_store': [0x0000, 0xB000, 0xA700, 'EHE'],
     'get_store2': [0x0000, 0xB000],
+    'get_store_other': [0x0000, 0xA700],      # the sub-operation's SOP class is not the abstract syntax of the context it arrives on
     'store_plain': [0x0000, 0xB000, 0xA700],      # the handler answers with a plain integer status code
     'user_n_action': ['x'],      # an application-defined MessageDispatcherSCP service next to StorageCommitment
     'user_n_event': ['x'],
@@ -238,6 +239,9 @@ def _one(case, sae):
     sae.plain = svc == 'store_plain'
     if svc == 'store_plain':
         svc = 'store'
+    other_class = svc == 'get_store_other'
+    if other_class:
+        svc = 'get_store'
     sop = {'echo': VERIF, 'store': CT, 'find': FIND, 'move': MOVE, 'n_action': COMMIT, 'n_event_report': COMMIT, 'get_store': CT,
            'get_store2': CT, 'user_n_action': PRIVATE, 'user_n_event': PRIVATE}[svc]
     MR = '1.2.840.10008.5.1.4.1.1.4'
@@ -291,7 +295,9 @@ def _one(case, sae):
         link = assoc.Link(sae, cae, {getpc: (GET, TS), pc: (CT, TS)})
         gen = link.scu.get_scu(GET)(dsgen.make('query'), 99)
         # the peer (played by the harness through the scp end) sends one C-STORE-RQ then the final C-GET-RSP
-        store_rq = msggen.make('CStoreRQMessage', sop_class=CT, sop_inst=inst, msg_id=mid, data_set=dsgen.enc(dsgen.make('a'), TS))
+        if other_class:
+            sop = CT + '.1'        # e.g. an Enhanced CT instance sent over the CT Image Storage context
+        store_rq = msggen.make('CStoreRQMessage', sop_class=sop if other_class else CT, sop_inst=inst, msg_id=mid, data_set=dsgen.enc(dsgen.make('a'), TS))
         final = msggen.make('CGetRSPMessage', sop_class=GET, msg_id=99, status=0)
         link.scu.dul.pump = None
         sent_before = len(link.log)
